@@ -399,8 +399,11 @@ def make_noise_map(rng):
         m["e"]["SigmaX"] = nm.DepolarizingNoise(0.02)
     if rng.random() < 0.6:
         m["ee"]["CNOT"] = nm.PauliError("Y")
-    if rng.random() < 0.6:
-        m["ep"]["CNOT"] = [nm.PauliError("X"), nm.NoNoise()]
+    if rng.random() < 0.7:
+        # different placements for control and target: exercises the temporary noise swap inside compile()
+        before = nm.PauliError("Z")
+        before.noise_parameters["After gate"] = False
+        m["ep"]["CNOT"] = [nm.PauliError("X"), before] if rng.random() < 0.5 else [before, nm.PauliError("X")]
     if rng.random() < 0.3:
         m["ep"]["MeasurementCNOTandReset"] = nm.DepolarizingNoise(0.01)
     return m
